@@ -168,6 +168,73 @@ def _no_module_state(mod: ast.Module, where: str, classes):
                 raise Untranslatable(f'{where}: class-level statement in {cls.name}: {ast.unparse(st)[:60]!r}')
 
 
+class PartError(Untranslatable):
+    def __init__(self, part: str, msg: str):
+        super().__init__(f'{part}: {msg}')
+        self.part = part
+
+
+ITERATE_FRAME = """
+def _iterate_mass(self) -> Trajectory:
+    mass_converged = False
+    iter = 1
+    traj, mass_res = self._fly_iteration()
+    while COND:
+        if TEST:
+            mass_converged = True
+        else:
+            CORRECTIONS
+            traj, mass_res = self._fly_iteration()
+            iter += 1
+    if not mass_converged:
+        raise RuntimeError(MSG)
+    return traj
+"""
+
+
+def iterate_facts(base: ast.Module) -> dict:
+    """Shape of Builder._iterate_mass: the convergence test, the iteration limit, the quantities corrected."""
+    part = 'trajectories/builders/base.py:_iterate_mass'
+    fn = find_function(base, '_iterate_mass', cls='Builder')
+    body = strip_doc(fn.body)
+    try:
+        a0, a1, a2, loop, chk, ret = body
+        assert ast.unparse(a0) == 'mass_converged = False' and ast.unparse(a1) == 'iter = 1'
+        assert ast.unparse(a2) == 'traj, mass_res = self._fly_iteration()'
+        assert isinstance(loop, ast.While) and not loop.orelse and len(loop.body) == 1
+        iff = loop.body[0]
+        assert isinstance(iff, ast.If) and [ast.unparse(x) for x in iff.body] == ['mass_converged = True']
+        assert ast.unparse(chk).startswith('if not mass_converged:') and isinstance(chk.body[0], ast.Raise) \
+            and ast.unparse(chk.body[0].exc).startswith('RuntimeError(') and len(chk.body) == 1 and not chk.orelse
+        assert ast.unparse(ret) == 'return traj'
+        els = iff.orelse
+        assert len(els) >= 2 and ast.unparse(els[-2]) == 'traj, mass_res = self._fly_iteration()' \
+            and ast.unparse(els[-1]) == 'iter += 1'
+    except (AssertionError, ValueError) as e:
+        raise PartError(part, 'the loop is not: fly; while not converged and iter < limit: test | correct, fly again') from e
+    cond = ast.unparse(loop.test)
+    if cond == 'not mass_converged and iter < self.options.max_mass_iters':
+        strict = True
+    elif cond == 'not mass_converged and iter <= self.options.max_mass_iters':
+        strict = False
+    else:
+        raise PartError(part, 'loop condition: ' + cond)
+    test = ast.unparse(iff.test)
+    if test == 'abs(mass_res) < self.options.mass_iter_reltol':
+        uses_abs = True
+    elif test == 'mass_res < self.options.mass_iter_reltol':
+        uses_abs = False
+    else:
+        raise PartError(part, 'convergence test: ' + test)
+    corrects = []
+    for st in els[:-2]:
+        if not (isinstance(st, ast.AugAssign) and isinstance(st.op, ast.Sub) and _self_attr(st.target)
+                and ast.unparse(st.value) == 'mass_res * self.total_fuel_mass'):
+            raise PartError(part, 'correction step: ' + ast.unparse(st)[:80])
+        corrects.append(st.target.attr)
+    return {'iter_strict': strict, 'iter_abs': uses_abs, 'iter_corrects': corrects}
+
+
 def facts(repo: Path) -> dict:
     base = ast.parse((Path(repo) / 'src/AEIC/trajectories/builders/base.py').read_text())
     legacy = ast.parse((Path(repo) / 'src/AEIC/trajectories/builders/legacy.py').read_text())
@@ -176,6 +243,15 @@ def facts(repo: Path) -> dict:
     if [ast.unparse(b) for b in lbuilder.bases] != ['Builder'] or [ast.unparse(b) for b in lcontext.bases] != ['Context']:
         raise Untranslatable('legacy.py: class hierarchy changed')
 
+    # the methods of the two builder classes: phases are dispatched by name (hasattr(self, 'fly_<phase>')), and
+    # every performance evaluation is a direct self.ac_performance.evaluate(...) of the model's oracle
+    want_b = {'__init__', '__getattr__', '__setattr__', 'fly', '_iterate_mass', '_start_point', '_fly_iteration',
+              'calc_starting_mass'}
+    want_l = {'__init__', 'calc_starting_mass', 'fly_climb', 'fly_descent', '_fly_level_change', 'fly_cruise'}
+    got_b, got_l = {m.name for m in _methods(builder)}, {m.name for m in _methods(lbuilder)}
+    if got_b != want_b or got_l != want_l:
+        raise PartError('trajectories/builders:methods of Builder / LegacyBuilder',
+                        f'unexpected or missing methods: {sorted((got_b ^ want_b) | (got_l ^ want_l))}')
     _no_module_state(base, 'builders/base.py', [builder, context, _cls(base, 'Options')])
     _no_module_state(legacy, 'builders/legacy.py', [lbuilder, lcontext, _cls(legacy, 'LegacyOptions')])
     _same_function(find_function(base, '__getattr__', cls='Builder'), GETATTR_SRC, 'Builder.__getattr__')
@@ -205,37 +281,42 @@ def facts(repo: Path) -> dict:
     tries = [n for n in strip_doc(fly.body) if isinstance(n, ast.Try)]
     others = [n for n in strip_doc(fly.body) if not isinstance(n, ast.Try)]
     if len(tries) != 1 or others or tries[0].handlers or tries[0].orelse:
-        raise Untranslatable('Builder.fly: body must be a single try/finally without except clauses')
+        raise PartError('trajectories/builders/base.py:fly(try/finally)', 'body must be a single try/finally without except clauses and nothing around it')
     tr = tries[0]
     first = [s for s in tr.body if not isinstance(s, ast.Assert)][0]
     if not (isinstance(first, ast.Assign) and len(first.targets) == 1 and _self_attr(first.targets[0])
             and first.targets[0].attr == 'ctx' and isinstance(first.value, ast.Call)
             and ast.unparse(first.value.func) == 'self.CONTEXT_CLASS'):
-        raise Untranslatable('Builder.fly: the try block must start by creating self.ctx = self.CONTEXT_CLASS(...)')
+        raise PartError('trajectories/builders/base.py:fly(try/finally)', 'the try block must start by creating self.ctx = self.CONTEXT_CLASS(...)')
     fin = tr.finalbody
     del_ctx = ast.dump(ast.parse('del self.ctx').body[0])
     if len(fin) == 1 and ast.dump(fin[0]) == del_ctx:
         guarded = False
-    elif (len(fin) == 1 and isinstance(fin[0], ast.If) and not fin[0].orelse and len(fin[0].body) == 1
-          and ast.dump(fin[0].body[0]) == del_ctx and ast.unparse(fin[0].test) in GUARDS):
+    elif (len(fin) == 1 and isinstance(fin[0], ast.If) and not fin[0].orelse
+          and any(ast.dump(x) == del_ctx for x in fin[0].body) and ast.unparse(fin[0].test) in GUARDS):
         guarded = True
     else:
-        raise Untranslatable('Builder.fly: unrecognised finally clause: ' + ' '.join(ast.unparse(s) for s in fin)[:120])
+        raise PartError('trajectories/builders/base.py:fly(finally clause)', 'unrecognised finally clause: ' + ' '.join(ast.unparse(s) for s in fin)[:120])
     # a starting mass handed in by the caller: is the fuel load still derived?
     sm_ifs = [s2 for s2 in tr.body if isinstance(s2, ast.If) and ast.unparse(s2.test) == 'self.starting_mass is None']
     want_then = ast.dump(ast.parse('self.starting_mass = self.calc_starting_mass()').body[0])
     if len(sm_ifs) != 1 or len(sm_ifs[0].body) != 1 or ast.dump(sm_ifs[0].body[0]) != want_then:
-        raise Untranslatable('Builder.fly: `if self.starting_mass is None: self.starting_mass = self.calc_starting_mass()` not found')
+        raise PartError('trajectories/builders/base.py:fly(starting-mass branch)', '`if self.starting_mass is None: self.starting_mass = self.calc_starting_mass()` not found')
     orelse = sm_ifs[0].orelse
     if not orelse:
         given_fix = False
     elif len(orelse) == 1 and ast.dump(orelse[0]) == ast.dump(ast.parse('self.calc_starting_mass()').body[0]):
         given_fix = True
     else:
-        raise Untranslatable('Builder.fly: unrecognised handling of a given starting mass: ' + ast.unparse(orelse[0])[:80])
-    return {'ctx_fields': _uniq(ctx_fields), 'init_writes': _uniq(init_writes),
-            'flight_writes': _uniq(flight_writes), 'reads': _uniq(reads), 'guarded': guarded,
-            'given_fix': given_fix}
+        raise PartError('trajectories/builders/base.py:fly(starting-mass branch)', 'unrecognised handling of a given starting mass: ' + ' ; '.join(ast.unparse(x) for x in orelse)[:120])
+    # what the finally clause does besides removing the context (nothing)
+    fin_body = fin[0].body if guarded else fin
+    finally_stmts = [' '.join(ast.unparse(x).split()) for x in fin_body]
+    out = {'ctx_fields': _uniq(ctx_fields), 'init_writes': _uniq(init_writes),
+           'flight_writes': _uniq(flight_writes), 'reads': _uniq(reads), 'guarded': guarded,
+           'given_fix': given_fix, 'finally_stmts': finally_stmts}
+    out.update(iterate_facts(base))
+    return out
 
 
 def extract(repo: Path) -> str:
@@ -251,7 +332,11 @@ def extract(repo: Path) -> str:
             f'Definition g_flight_writes : list string := {lst(f["flight_writes"])}.\n'
             f'Definition g_reads : list string := {lst(f["reads"])}.\n'
             f'Definition g_finally_guarded : bool := {"true" if f["guarded"] else "false"}.\n'
-            f'Definition g_given_mass_fuel_derived : bool := {"true" if f["given_fix"] else "false"}.\n')
+            f'Definition g_given_mass_fuel_derived : bool := {"true" if f["given_fix"] else "false"}.\n'
+            f'Definition g_finally_body : list string := {lst(f["finally_stmts"])}.\n'
+            f'Definition g_iterate_limit_strict : bool := {"true" if f["iter_strict"] else "false"}.\n'
+            f'Definition g_iterate_test_uses_abs : bool := {"true" if f["iter_abs"] else "false"}.\n'
+            f'Definition g_iterate_corrects : list string := {lst(f["iter_corrects"])}.\n')
 
 
 if __name__ == '__main__':
